@@ -93,6 +93,25 @@ def check_insert(prog, rep, ctx):
     return good
 
 
+def check_flag_tests(prog, rep, ctx):
+    """the expand-or-raise decision (and every other decision on the caller's flags along the insert path) goes by the flag's truth
+    value: an identity test against True / False sends auto_expand=1 down the raise path, where the entry in hand is lost"""
+    from ..common import raw_flag_identity_tests
+    for fname in ("add", "_deal_with_insertion", CTXS[ctx]):
+        try:
+            f = prog.method(ctx, fname)
+        except Exception:
+            continue
+        hits = raw_flag_identity_tests(prog, ctx, f, cpaths(prog, ctx, f))
+        if hits:
+            c, x, why = hits[0]
+            rep.bad("C03.no-loss-on-insert", f"{ctx}.{fname}", f"identity test on {nshow(x)}",
+                    f"{fname} decides by `{nshow(strip_epochs(c.atom))}` on {why}: a truthy value that is not the object True (auto_expand=1) takes the branch for False - "
+                    "the filter raises instead of growing and the entry in hand is dropped", f.where(c.node))
+            return
+    rep.ok("C03.no-loss-on-insert", f"{ctx}: flags along the insert path are tested by truth value")
+
+
 def check_expand(prog, rep, ctx):
     se = prog.method(ctx, "_setup_expand")
     where = f"{ctx}._setup_expand"
@@ -180,6 +199,18 @@ def check_expand(prog, rep, ctx):
         lst = strip_epochs(su[0].result)
         ins = [e for e in calls if e.name == ins_name and e.loops]
         if not ins:
+            # a walk over the collected entries that does not go through the insert routine: each entry must at least have been
+            # placed (an append into a bucket on this path); a generic iteration that neither inserts nor places the entry drops it
+            walks = [e for e in p.events if e.kind == "bind" and e.loops and strip_epochs(e.value)[0] == "it" and strip_epochs(strip_epochs(e.value)[2]) == lst]
+            if walks and p.exit[0] == "return":
+                lid = walks[0].loops[-1]
+                placed = any(e.kind == "call" and e.target is None and e.name in ("append", "insert") and lid in e.loops for e in p.events)
+                if not placed:
+                    rep.bad("C03.reinsert-all", where, "entry neither inserted nor placed",
+                            "a walk over the collected entries carries on past an entry that was neither handed to the insert routine nor appended to a bucket "
+                            "(both of its buckets were full): that entry is dropped silently", el.where())
+                    okl = False
+                    break
             continue
         seen_loop = True
         tok = strip_epochs(ins[0].args[0])
@@ -471,14 +502,20 @@ def check(prog, rep, tier):
     for ctx in CTXS:
         check_insert(prog, rep, ctx)
         check_expand(prog, rep, ctx)
+        check_flag_tests(prog, rep, ctx)
         check_failure_handling(prog, rep, ctx)
         check_remove_and_candidates(prog, rep, ctx)
 
 
-from ..selftest import Mutant, del_stmt, insert_stmt, replace_expr, replace_stmt
+from ..selftest import Mutant, del_stmt, insert_stmt, replace_expr, replace_stmt, seq
 
 _CK, _CC = "cuckoo/cuckoo.py", "cuckoo/countingcuckoo.py"
 MUTANTS = [
+    Mutant("auto_expand stored as passed and tested by identity", "cuckoo/cuckoo.py",
+           seq(replace_stmt("CuckooFilter", "__init__", "self.auto_expand = auto_expand", "self.__auto_expand = auto_expand"),
+               replace_expr("CuckooFilter", "_deal_with_insertion", "self.auto_expand", "self.auto_expand is True")), rule="C03.no-loss-on-insert"),
+    Mutant("auto_expand normalised by bool() and tested by identity (same meaning)", "cuckoo/cuckoo.py",
+           replace_expr("CuckooFilter", "_deal_with_insertion", "self.auto_expand", "self.auto_expand is True"), expect="silent"),
     Mutant("_setup_expand: range(capacity - 1)", _CK, replace_expr("CuckooFilter", "_setup_expand", "range(self.capacity)", "range(self.capacity - 1)"), rule="C03.capture"),
     Mutant("_deal_with_insertion: _expand_logic(None)", _CK, replace_expr("CuckooFilter", "_deal_with_insertion", "self._expand_logic(finger)", "self._expand_logic(None)"), rule="C03.left-over"),
     Mutant("_setup_expand: table reset before collecting", _CK, insert_stmt("CuckooFilter", "_setup_expand", "self._buckets = []", before="for idx in range(self.capacity)"), rule="C03.capture"),
